@@ -131,6 +131,16 @@ func checkJSONKeys(c *Ctx, ev *tmpl.Evaluator, gen *packages.Package) {
 			ok := tag == "-" || tag == "⟦.OriginalName⟧"
 			c.Check(ok, rule, fmt.Sprintf("%s › %s › json tag #%d", l.Tree.Asset, tn, k), l.Tree.PosStr(oc.Pos), "JSON name",
 				fmt.Sprintf("the json tag is built from %s: when the property carries x-go-name the (un)marshaller uses the Go name as JSON key and the value is lost in both directions", tag))
+			// the tag of a property's field carries its `,string` option at every site: the structs of a
+			// marshaller and of its unmarshaller must encode a value the same way
+			if tag == "⟦.OriginalName⟧" {
+				rest := l.Text[oc.End:]
+				if i := strings.IndexByte(rest, '`'); i >= 0 {
+					rest = rest[:i]
+				}
+				c.Check(strings.Contains(rest, ",string"), rule, fmt.Sprintf("%s › %s › json tag #%d carries ,string under .IsJSONString", l.Tree.Asset, tn, k), l.Tree.PosStr(oc.Pos), "…{{ if .IsJSONString }},string{{ end }}",
+					"this struct tag drops the `,string` option that the other tags of the same property carry: an x-go-json-string value is read as a quoted string and written as a bare number (or the reverse), and the model cannot decode what it encoded")
+			}
 		}
 	}
 	// PrintTags → renderMarshalTag writes OriginalName
